@@ -165,9 +165,10 @@ class P(StandIn):
 class SegU(StandIn):
     """segment stand-in for clean(): united according to a table"""
 
-    def __init__(self, name, start, end, table, degree=1):
+    def __init__(self, name, start, end, table, degree=2):
         self.name, self.table, self.degree = name, table, degree
-        self.ctrlpoints = (start, end)
+        # a curved piece: it has an interior control point of its own
+        self.ctrlpoints = (start, P(name + ".m"), end)
         self.cleaned = 0
 
     def clean(self, *a):
@@ -204,6 +205,10 @@ def r15_2(ctx):
         elif not (final[0].ctrlpoints[0] is pa and final[0].ctrlpoints[-1] is pc and final[1].ctrlpoints[0] is pc
                   and final[1].ctrlpoints[-1] is pa):
             out.bad(fn.qname, "a united segment does not keep the original junction point objects", where=fn.where())
+        elif [[q.name for q in x.ctrlpoints[1:-1]] for x in final] != [["ab.m"], ["cd.m"]]:
+            out.bad(fn.qname, "a united segment does not keep its own interior control points", where=fn.where(),
+                    detail=f"the unions ab and cd have the interior control points ab.m and cd.m; after clean() the curve "
+                           f"has {[[q.name for q in x.ctrlpoints] for x in final]}")
         elif got is not S:
             out.bad(fn.qname, "clean() does not return the same curve", where=fn.where())
         else:
